@@ -179,5 +179,9 @@ def check(ctx):
                 else:
                     ctx.fail(f, call, "a repeat evaluation with the no-record flag exists that is neither the single noise test (level < 1, outside loops) nor the final sampling (level > 0): a deterministic target can be evaluated twice at the same point",
                              construct=f"no-record logger call under {' & '.join(lvl) or 'no level guard'}")
+    ctx.rule("R4", "the constraint callable handed to the filter is the user's own (or a wrapper that only reshapes its result)", floor=1)
+    from .c02 import constraint_identity
+
+    constraint_identity(ctx, prog, R)
     ctx.assume("np.unique(..., axis=0, return_index=True) returns the index of the first occurrence of each distinct row")
     ctx.assume("coincidence 'within half the mesh tolerance' is decided by the rounding to tol the code applies; rounding error is not analysed")
